@@ -730,8 +730,66 @@ def corr_member_stmts(ctx, corr):
                                            what="member statement `%s` in struct %s: %s" % (' '.join(toks), cls, msg)))
 
 
+# ---------------------------------------------------------------------------
+# operator names: extracted op_name (Parse/OpName.v) vs the real _parse_pqname_name_operator
+
+OP_SPELLINGS = [['=', '='], ['+'], ['-', '>'], ['(', ')'], ['[', ']'], ['<', '<'], ['<<'], ['new'], ['new', '[', ']'], ['delete'], ['!'], ['+', '='], ['<', '=', '>'],
+                ['&&'], ['||'], [','], ['~'], ['->'], ['*'], ['%', '='], ['"', '"', '_x'], ['co_await'], ['(', ')', '<', 'int', '>'], ['bool'], ['(']]
+OP_FOLLOW = [['(', 'int', 'a', ')', ';'], [';', 'int', 'x', ';'], ['(', ')', 'const', '{', '}'], [], ['<', 'int', '>', '(', 'int', ')', ';'], [')', ';']]
+
+
+def real_op_name(strs):
+    from harness import decl
+    toks = [impl.mk_tok(decl.tok_type(s), s) for s in strs]
+    p = impl.parser_over(toks)
+    try:
+        parts = p._parse_pqname_name_operator()
+    except (impl.CxxParseError, EOFError):
+        return ('err',)
+    except (AssertionError, IndexError, KeyError, AttributeError, TypeError):
+        return ('other',)
+    return ('ok', tuple(t.value for t in parts), len(p.lex.tokbuf))
+
+
+def corr_op_names(ctx, corr):
+    from harness import decl
+    from harness.props import c02
+    rng = ctx.rng
+    cases = []
+    for _ in range(ctx.scale(600, 12000)):
+        toks = [t for t in rng.choice(OP_SPELLINGS) if t != '"'] + list(rng.choice(OP_FOLLOW))
+        cases.append(toks)
+        if rng.random() < 0.3:
+            cases.append(c02.mutate(rng, toks))
+    lines, nms = [], []
+    for toks in cases:
+        names = decl.Names()
+        lines.append([110] + decl.enc_tokens(toks, names))
+        nms.append(names)
+    for toks, o, names in zip(cases, run_driver(lines), nms):
+        corr.cases += 1
+        if o[0] == 0:
+            n = o[2]
+            m = ('ok', tuple(names.rev[o[3 + 2 * j + 1]] if o[3 + 2 * j + 1] else impl.TT[o[3 + 2 * j]] for j in range(n)), o[1])
+        else:
+            m = ('err', o[1])
+        r = real_op_name(toks)
+        k = "opname:" + (m[0] if m[0] == 'ok' else 'err%d' % m[1]) + "/" + r[0]
+        corr.dist[k] = corr.dist.get(k, 0) + 1
+        msg = None
+        if r[0] != 'other':
+            if (m[0] == 'ok') != (r[0] == 'ok'):
+                msg = "model %s, implementation %s" % (m[:2], r[:2])
+            elif m[0] == 'ok' and m != r:
+                msg = "model %s, implementation %s" % (m, r)
+        if msg:
+            corr.disagreements.append(dict(case=dict(kind='corr-opname', tokens=toks), model=str(m)[:300], impl=str(r)[:300],
+                                           what="operator %s: %s" % (' '.join(toks), msg)))
+
+
 def correspond(ctx):
     corr = c05.correspond(ctx)
+    corr_op_names(ctx, corr)
     corr_member_stmts(ctx, corr)
     corr_ctor_dtor(ctx, corr)
     corr_class_enum(ctx, corr)
@@ -752,6 +810,11 @@ QUALS = [
     (" = 0", {"pure_virtual": True}), (" = delete", {"deleted": True}), (" = default", {"default": True}), (" {}", {"has_body": True}),
     (" const noexcept override", {"const": True, "noexcept": [], "override": True}), (" -> int", {"has_trailing_return": True}),
     (" const -> int { return 0; }", {"const": True, "has_trailing_return": True, "has_body": True}),
+    # what may follow a trailing return type (F36)
+    (" const -> int override", {"const": True, "has_trailing_return": True, "override": True}),
+    (" -> int final", {"has_trailing_return": True, "final": True}),
+    (" -> int = 0", {"has_trailing_return": True, "pure_virtual": True}),
+    (" noexcept -> int override final { return 0; }", {"noexcept": [], "has_trailing_return": True, "override": True, "final": True, "has_body": True}),
 ]
 METHOD_DEFAULTS = dict(const=False, volatile=False, ref_qualifier=None, noexcept=None, throw=None, override=False, final=False,
                        pure_virtual=False, deleted=False, default=False, has_body=False, has_trailing_return=False, virtual=False,
@@ -862,7 +925,12 @@ class ClassGen:
             elif r < 0.74:
                 outer_lines.append(ind + "using u%d = int;" % k); exp["using_alias"].append(("u%d" % k, access))
             elif r < 0.78:
-                outer_lines.append(ind + "using B::x%d;" % k); exp["using"].append(("x%d" % k, access))
+                if rng.random() < 0.4:
+                    # using-declarations of operators (F38): the operator name ends at the ';'
+                    op = rng.choice(["=", "()", "[]", "+", "<<", "==", "->", "!", "+="])
+                    outer_lines.append(ind + "using B::operator%s;" % op); exp["using"].append(("operator" + op, access))
+                else:
+                    outer_lines.append(ind + "using B::x%d;" % k); exp["using"].append(("x%d" % k, access))
             elif r < 0.84:
                 outer_lines.append(ind + "enum e%d { a%d, b%d = 2 };" % (k, k, k)); exp["enums"].append(("e%d" % k, access))
             elif r < 0.88:
@@ -931,6 +999,10 @@ class ClassGen:
             if sig.endswith(" const"):
                 attrs["const"] = True
             exp["methods"].append(("operator" + op, access, attrs, None))
+            if op == "()" and rng.random() < 0.5:
+                # an explicit specialization of the call operator: the name is still operator(), the operator still "()"
+                lines.append(ind + "template <> void operator()<int>(int a);")
+                exp["methods"].append(("operator()", access, {"operator": "()"}, "template"))
             return
         if form == "conv":
             ty = rng.choice(["int", "bool", "const char*", "%s*" % cname])
